@@ -11,6 +11,7 @@ import (
 	"path/filepath"
 	"strings"
 	"sync"
+	"sync/atomic"
 	"time"
 )
 
@@ -281,9 +282,15 @@ func firstLines(s string, n int) string {
 	return strings.Join(ls, "\n")
 }
 
+// maxUndischarged: once this many obligations have come back undischarged the
+// verdict (exit 1) is settled; the remaining ones are skipped so that a check on
+// a badly broken tree ends in minutes, not tens of minutes.
+const maxUndischarged = 10
+
 func dischargeAll(obls []*Obligation, opt solveOpts, par int) {
 	var wg sync.WaitGroup
 	sem := make(chan struct{}, par)
+	var bad int32
 	for i, o := range obls {
 		if o.Goal == "true" {
 			o.Status, o.Solver = "proved", "trivial"
@@ -298,7 +305,14 @@ func dischargeAll(obls []*Obligation, opt solveOpts, par int) {
 		go func(i int, o *Obligation) {
 			defer wg.Done()
 			defer func() { <-sem }()
+			if atomic.LoadInt32(&bad) >= maxUndischarged && !o.ExpectSat {
+				o.Status, o.Solver, o.Output = "skipped", "none", "skipped: the run already has 10 undischarged obligations"
+				return
+			}
 			discharge(o, i, opt)
+			if !o.ExpectSat && o.Status != "proved" {
+				atomic.AddInt32(&bad, 1)
+			}
 		}(i, o)
 	}
 	wg.Wait()
